@@ -62,7 +62,7 @@ size_t pick_size(int64_t mode, int64_t k, size_t buff) {
   }
 }
 
-struct Life { AsyncPipe::Config cfg; std::vector<Step> script[kMaxProd]; unsigned sink_us = 0; bool cb_first = false; /* setCallback() before initialize() */ };
+struct Life { AsyncPipe::Config cfg; std::vector<Step> script[kMaxProd]; unsigned sink_us = 0; bool cb_first = false; /* setCallback() before initialize() */ bool min0 = false; /* buff_min_num = 0: the unmodified initialize() refuses it */ };
 
 // one life of the pipe object: initialize, producers, cleanup, oracle
 std::string run_life(AsyncPipe &pipe, Life &life, int nprod, int life_no, CaseInfo &info, bool &nontrivial) {
@@ -81,17 +81,21 @@ std::string run_life(AsyncPipe &pipe, Life &life, int nprod, int life_no, CaseIn
 
   // ---- run
   std::mutex out_mu; std::string out; std::vector<size_t> block_sizes;
-  std::atomic<int> in_cb{0}; std::atomic<bool> overlap{false}, held_lock_over_interval{false};
+  std::atomic<int> in_cb{0}; std::atomic<bool> overlap{false}, held_lock_over_interval{false}; bool tried_min0 = false;
   {
     // the sink callback may be installed before or after initialize(): the API allows both orders
-    if (!life.cb_first && !pipe.initialize(cfg)) return "initialize() refused a valid configuration";
+    // degenerate configuration first: no buffer kept while idle (buff_min_num = 0).  The unmodified initialize() refuses it; if an
+    // implementation accepts it, the pipe must work with it like with any other configuration (this life then runs on it)
+    bool pre_initialised = false;
+    if (life.min0) { AsyncPipe::Config c0 = cfg; c0.buff_min_num = 0; tried_min0 = true; if (pipe.initialize(c0)) { cfg = c0; pre_initialised = true; } }
+    if (!life.cb_first && !pre_initialised && !pipe.initialize(cfg)) return "initialize() refused a valid configuration";
     pipe.setCallback([&](const void *p, size_t n) {
       if (in_cb.fetch_add(1) != 0) overlap = true;
       { std::lock_guard<std::mutex> lg(out_mu); out.append((const char *)p, n); block_sizes.push_back(n); }
       if (sink_us) spin_us(sink_us);
       in_cb.fetch_sub(1);
     });
-    if (life.cb_first && !pipe.initialize(cfg)) return "initialize() refused a valid configuration";
+    if (life.cb_first && !pre_initialised && !pipe.initialize(cfg)) return "initialize() refused a valid configuration";
     std::vector<std::thread> th;
     for (int p = 0; p < nprod; ++p) {
       th.emplace_back([&, p] {
@@ -148,6 +152,7 @@ std::string run_life(AsyncPipe &pipe, Life &life, int nprod, int life_no, CaseIn
   info.cls_if(partial_block, "timed_flush_of_partial_buffer");
   info.cls_if(cfg.interval == 3600000, "interval_1h");
   info.cls_if(sink_us > 0, "slow_sink");
+  info.cls_if(tried_min0, "initialize_with_buff_min_num_0_tried_first");
   info.cls_if(held_lock_over_interval.load(), "append_lock_held_across_flush_intervals");
   info.cls_if(life_no > 0 && total > 0, "data_in_a_later_life_of_the_same_pipe_object");
   if (nprod >= 2 && total > 0 && (big_append || partial_block || sink_us > 0)) nontrivial = true;
@@ -161,6 +166,7 @@ std::string run(const Scenario &s, CaseInfo &info) {
   std::vector<Life> lives(1);
   auto set_cfg = [](Life &lf, const Op &op, size_t cb_first_arg) {
     lf.cb_first = op.in(cb_first_arg, 0, 1) == 1;
+    lf.min0 = op.in(cb_first_arg + 1, 0, 7) == 7;
     lf.cfg.buff_size = (size_t)kBuffSizes[op.in(0, 0, 5)];
     lf.cfg.buff_min_num = (size_t)op.in(1, 1, 3);
     lf.cfg.buff_max_num = lf.cfg.buff_min_num + (size_t)op.in(2, 0, 3);
@@ -202,7 +208,7 @@ std::string run(const Scenario &s, CaseInfo &info) {
 SubDef def = [] {
   SubDef d; d.name = "pipe";
   d.op_names = {"cfg", "sched", "app", "group", "pause", "life"};
-  d.op_arity = {9, 3, 3, 7, 2, 8};
+  d.op_arity = {10, 3, 3, 7, 2, 9};
   d.nt_rule = ">= 2 producer threads with data, and (an append larger than 2 buffers, or a timed flush of a partial buffer observed as a short block before the end, or a slow sink callback giving back-pressure)";
   d.run = run;
 #ifndef VERIF_ENGINE_FUZZ
@@ -214,9 +220,9 @@ SubDef def = [] {
       {8, mkop(APP, {prod, mode, k})},
       {3, mkop(GROUP, {prod, range(1, 3), mode, mode, mode, k, range(0, 3)})},
       {4, mkop(PAUSE, {prod, rc::gen::weightedOneOf<int64_t>({{2, range(0, 50)}, {2, range(1000, 3000)}, {1, range(5000, 12000)}})})},
-      {1, mkop(LIFE, {range(0, 5), range(1, 3), range(0, 3), oneOfValues({0, 0, 0, 1, 1, 2, 3, 3}), range(0, 0), range(0, 3), range(0, 300), range(0, 1)})},
+      {1, mkop(LIFE, {range(0, 5), range(1, 3), range(0, 3), oneOfValues({0, 0, 0, 1, 1, 2, 3, 3}), range(0, 0), range(0, 3), range(0, 300), range(0, 1), range(0, 7)})},
     });
-    auto cfg = mkop(CFG, {range(0, 5), range(1, 3), range(0, 3), oneOfValues({0, 0, 0, 1, 1, 2, 3, 3}), range(1, kMaxProd), range(0, 3), range(0, 300), range(1, 1 << 30), range(0, 1)});
+    auto cfg = mkop(CFG, {range(0, 5), range(1, 3), range(0, 3), oneOfValues({0, 0, 0, 1, 1, 2, 3, 3}), range(1, kMaxProd), range(0, 3), range(0, 300), range(1, 1 << 30), range(0, 1), range(0, 7)});
     auto sched = mkop(SCHED, {range(0, 3), oneOfValues({0, 100, 500, 1000}), oneOfValues({0, 20, 200, 1500})});
     return scenarioOf(fixedOps({cfg, sched, sched, sched}), opsOf(opg));
   };
